@@ -472,9 +472,10 @@ func NonGreedyLexerWith(r *rng.R, interplay bool) (*lexspec.Spec, Alphabet) {
 	s := &lexspec.Spec{}
 	alpha := append(Alphabet{}, body...)
 	nNG := r.Range(1, 2)
+	nestedPlan := interplay && nNG == 2 && r.Chance(2, 3)
 	for k := 0; k < nNG; k++ {
 		open := opener[k]
-		nested := interplay && k == 1 && r.Chance(1, 2)
+		nested := nestedPlan && k == 1
 		if nested {
 			// the second non-greedy rule's prefix extends the first one's
 			// ('<' and '<<'): both repetitions run at the same time
@@ -489,7 +490,12 @@ func NonGreedyLexerWith(r *rng.R, interplay bool) (*lexspec.Spec, Alphabet) {
 			p = lexspec.Cat{Parts: []lexspec.Rx{lexspec.Lit{S: []rune{open}}, lexspec.Class{Items: []lexspec.Item{{Lo: body[0], Hi: body[0]}}}}}
 		}
 		var b lexspec.Rx
-		switch r.Intn(4) {
+		bk := r.Intn(4)
+		if nestedPlan && k == 0 {
+			// the body must run through the second opener
+			bk = []int{0, 3}[r.Intn(2)]
+		}
+		switch bk {
 		case 0:
 			b = lexspec.Any{}
 		case 1:
